@@ -75,7 +75,7 @@ P("C09", "model_checking", native=True, kani={"timeout": "1200s"},
   unbounded="the tail of generate_step (R15 statement suffix): ALL step streams of a step go, in branch order, into ONE joiner invocation (futures_crate_path::join! / try_join! or the custom joiner) - the concurrency of a step rests on that macro; a step with one active branch is awaited directly",
   bounded="join_async!/try_join_async!, profiles n<=3 d<=2 (thorough: d<=3, n=4 sample), one harness-controlled gate per (branch, step) with symbolic pending count <= 1: every readiness pattern incl. batches; polls <= 1 + sum_s max_i p_is",
   not_decided="tokio-task variants beyond the 6 native programs of spawn_sweep (one schedule each, 20 s timeout); unbounded liveness")
-P("C03", "model_checking", native=True, kani={"timeout": "1200s"},
+P("C03", "model_checking", native=True, kani={"timeout": "1200s"}, rac=["structure"],
   unbounded="native family rand_diff (48 / 240 random programs x sampled inputs against the staged reference, see C01); where a step begins: the fold of JoinOutput::new that splits a branch (R15 lifted closure + R13) computes split_steps(members) - a new step at every member carrying the `~` mark and nowhere else, order kept; the mark reaches it unchanged (parse_until suffix, ActionGroup::parse_stream, to_wrapper_action_expr: action == self, ExprGroup::application_type)",
   bounded="sync: profiles n<=3 d<=3 with 7 operator kinds rotating over positions (incl. deferred error operators), exact staged trace; async: same gate programs as C09, monotone step numbers in the trace",
   not_decided="OS-thread interleavings and tokio task schedules (Kani has no thread support)")
